@@ -94,6 +94,10 @@ def run(rep, pool, driver, tier):
                       'ndl_openmp': ['alpha', 'beta', 'lambda']}.get(learner, ['eta'])
             for which in whichs:
                 for value in (['str', 'none', 'list'] if not quick else [r.choice(['str', 'none'])]):
+                    if learner == 'wh_numpy' and value == 'list':
+                        # eta=[0.5] is a usable value for the numpy method (broadcasting: the run is carried
+                        # out correctly with eta = 0.5), not a fault — see DESIGN §11
+                        continue
                     tasks.append((dict(cfg, op='fault_run', events=es, fault={'kind': 'bad_param', 'which': which, 'value': value}),
                                   'bad_param', 'bad_param'))
     # the events generator itself fails while it is consumed (dict_ndl) or spooled (ndl.ndl)
